@@ -374,6 +374,12 @@ std::string Run::compose_name(int token, int name_sel, int kind) {
   if (!cfg.use_tokens) return base;
   if (base.empty() || base == ".") return "t" + std::to_string(token) + (base == "." ? "." : "");
   if (base[0] == '!') return base.substr(1);   // literal name (no token), e.g. "localhost" or an IP literal
+  if (cfg.knob("token_style") == 2) {
+    // token inside the first label (keeps the number of dots of the base name): first-tNN.rest
+    size_t dot = base.find('.');
+    std::string first = dot == std::string::npos ? base : base.substr(0, dot);
+    return first + "-t" + std::to_string(token) + (dot == std::string::npos ? "" : base.substr(dot));
+  }
   return "t" + std::to_string(token) + "." + base;
 }
 
